@@ -29,6 +29,9 @@ def build(case):
     if sc:
         # exact for powers of two; for powers of ten each coordinate is rounded once
         xyz = xyz * (float(sc[0]) / float(sc[1]))
+    dt = case.get('dtype')
+    if dt:
+        xyz = xyz.astype(dt)
     blocks = {}
     for typ, es in case['blocks'].items():
         blocks[typ] = FEMAttribute(typ, np.array([e[0] for e in es], dtype=np.int64),
@@ -104,19 +107,72 @@ def run_case(case, work):
         os.remove(path)
         return {'lines': lines, 'read': back}
 
-    VIEWS = {'surface': v_surface, 'to_surface': v_to_surface, 'fistr': v_fistr, 'obj': v_obj}
-    for name in ('surface', 'to_surface', 'fistr', 'obj'):
+    def v_to_surface_all(fd):
+        s = fd.to_surface(remove_unnecessary_nodes=False)
+        return {'nodes': s.nodes.ids.astype(np.int64).tolist(),
+                'node_xyz': [[frac(c) for c in row] for row in np.asarray(s.nodes.data).tolist()],
+                'elements': {k: {'ids': v.ids.astype(np.int64).tolist(),
+                                 'data': np.asarray(v.data).astype(np.int64).tolist()}
+                             for k, v in s.elements.items()}}
+
+    VIEWS = {'surface': v_surface, 'to_surface': v_to_surface, 'fistr': v_fistr, 'obj': v_obj,
+             'to_surface_all': v_to_surface_all}
+    for name in ('surface', 'to_surface', 'fistr', 'obj', 'to_surface_all'):
         if name in want:
             guard(name, lambda name=name: VIEWS[name](build(case)))
+    def state_of(fd):
+        return {'nodes': fd.nodes.ids.astype(np.int64).tolist(),
+                'xyz': [[frac(c) for c in row] for row in np.asarray(fd.nodes.data).tolist()],
+                'blocks': {k: {'ids': v.ids.astype(np.int64).tolist(),
+                               'data': np.asarray(v.data).astype(np.int64).tolist()}
+                           for k, v in fd.elements.items()}}
+
+    def modify(fd, op):
+        args = case.get('mod_args', {})
+        if op == 'M:remove_useless_nodes':
+            fd.remove_useless_nodes()
+        elif op == 'M:assign_new':
+            fd.elements.data = fd.elements.data[np.array(args['perm'])].copy()
+        elif op == 'M:assign_same':
+            conn = fd.elements.data
+            a, b = args['swap']
+            row = conn[a].copy()
+            conn[a] = conn[b]
+            conn[b] = row
+            fd.elements.data = conn
+        elif op == 'M:positive':
+            fd.make_elements_positive()
+        elif op == 'M:positive2':
+            fd.make_elements_positive()
+            fd.make_elements_positive()
+        elif op == 'M:move_nodes':
+            # through the setter (an in-place nodes.data[...] = leaves FEMAttribute's data frame, which
+            # to_surface reads through .iloc, behind: C08's subject)
+            fd.nodes.data = np.array(args['coords'], dtype=float)
+        elif op == 'X:other':
+            # another live object queried in between (class-level caches)
+            other = build({'nodes': [[1, [0, 0, 0]], [2, [1, 0, 0]], [3, [0, 1, 0]], [4, [0, 0, 1]], [5, [1, 1, 1]]],
+                           'blocks': {'tet': [[1, [1, 2, 3, 4]], [2, [2, 3, 4, 5]]]}})
+            other.extract_surface()
+            other.to_surface()
+            other.calculate_incidence_matrix()
+        else:
+            raise ValueError(op)
+
     if 'history' in want:
-        # ONE object, several rounds of views in the given order
+        # ONE object, several rounds: modifiers (M:...) / other-object queries (X:...) first, then views
         fd = build(case)
         rounds = []
         for ops in case['history']:
             rr = {}
             for op in ops:
                 try:
-                    rr[op] = VIEWS[op](fd)
+                    if op[:2] in ('M:', 'X:'):
+                        modify(fd, op)
+                        if op[:2] == 'M:':
+                            rr['state'] = state_of(fd)
+                    else:
+                        rr[op] = VIEWS[op](fd)
                 except Exception as e:          # noqa
                     rr[op] = {'error': type(e).__name__, 'msg': str(e)[:300],
                               'tb': traceback.format_exc()[-600:]}
@@ -139,7 +195,15 @@ def run_case(case, work):
         facet, inc, normals = fd.calculate_normal_incidence_matrix()
         coo = inc.tocoo()
         trip = sorted((int(r), int(c), int(v)) for r, c, v in zip(coo.row, coo.col, coo.data))
-        return {'cell_ids': fd.elements.ids.astype(np.int64).tolist(),
+        areas = facet.calculate_element_areas()
+        try:
+            vols = [frac(x) for x in np.ravel(fd.calculate_element_volumes(
+                raise_negative_volume=False, update=False))]
+        except Exception as e:          # noqa
+            vols = {'error': type(e).__name__, 'msg': str(e)[:200]}
+        return {'areas': [frac(x) for x in np.ravel(areas)], 'volumes': vols,
+                'state': state_of(fd),
+                'cell_ids': fd.elements.ids.astype(np.int64).tolist(),
                 'cell_types': [str(t) for t in fd.elements.types],
                 'shape': [int(inc.shape[0]), int(inc.shape[1])],
                 'facet_nodes': facet.nodes.ids.astype(np.int64).tolist(),
@@ -159,12 +223,18 @@ def run_case(case, work):
             mv = case['move']
             fd = build(case)
             first = incidence_of(fd)
-            if mv['kind'] == 'permute':
+            if mv['kind'] == 'repeat':
+                pass
+            elif mv['kind'] == 'useless':
+                fd.remove_useless_nodes()
+            elif mv['kind'] == 'permute':
                 # query the plain node-cell incidence / adjacency first (memoised per object), then
                 # re-order the connectivity rows in place
-                fd.calculate_incidence_matrix()
+                # (the adjacency query first: it asks for the incidence with another spelling of the
+                # arguments and would evict the entry of the plain call from a maxsize=1 cache)
                 if mv.get('adjacency'):
                     fd.calculate_adjacency_matrix_element()
+                fd.calculate_incidence_matrix()
                 fd.elements.data = fd.elements.data[np.array(mv['perm'])].copy()
             elif mv['kind'] == 'api':
                 fd.nodal_data.reset()
@@ -177,9 +247,13 @@ def run_case(case, work):
                 fd.nodes.data[:, :] = np.array(mv['coords'], dtype=float)
             second = incidence_of(fd)
             moved_xyz = [[frac(c) for c in row] for row in fd.nodes.data.tolist()]
-            fresh_case = dict(case, nodes=[[n[0], c] for n, c in zip(case['nodes'], fd.nodes.data.tolist())],
+            fresh_case = dict(case, nodes=[[int(i), c] for i, c in zip(fd.nodes.ids.tolist(), fd.nodes.data.tolist())],
                               scale=None, offset=None)
-            if mv['kind'] == 'permute':
+            if mv['kind'] == 'repeat':
+                pass
+            elif mv['kind'] == 'useless':
+                fd.remove_useless_nodes()
+            elif mv['kind'] == 'permute':
                 fresh_case['blocks'] = case['moved_blocks']
             fresh = incidence_of(build(fresh_case))
             return {'first': first, 'second': second, 'fresh': fresh, 'moved_xyz': moved_xyz}
